@@ -29,8 +29,8 @@ var hashFuncs = map[string]func() hash.Hash{
 	"MD5-sess":         md5.New,
 	"SHA-256":          sha256.New,
 	"SHA-256-sess":     sha256.New,
-	"SHA-512-256":      sha512.New,
-	"SHA-512-256-sess": sha512.New,
+	"SHA-512-256":      sha512.New512_256,
+	"SHA-512-256-sess": sha512.New512_256,
 }
 
 // create response middleware for http digest authentication.
